@@ -5,3 +5,6 @@ LEVEL = "proof"
 def run(chk, replay=None):
     chk.prove()
     k1.run_unit(chk, timers.TimedContext())
+    u = timers.UnsafeLoop()
+    k1.run_unit(chk, u)
+    print(u.uninit_hits)
